@@ -48,8 +48,8 @@ def unit(rng, ntypes):
             prefix += d + '\n'
             rprefix += d + '\n'
             nm = 'en_%s' % tag
-            decls.append(dataref.Decl(nm, 'unsigned long %s[] = { sizeof(enum %s), _Alignof(enum %s), (enum %s)-1 < 0, __builtin_types_compatible_p(enum %s, int), __builtin_types_compatible_p(enum %s, unsigned), sizeof(%s_e0) };'
-                                      % (nm, tag, tag, tag, tag, tag, tag), [nm], meta=d))
+            decls.append(dataref.Decl(nm, 'unsigned long %s[] = { sizeof(enum %s), _Alignof(enum %s), (enum %s)-1 < 0, __builtin_types_compatible_p(enum %s, int), __builtin_types_compatible_p(enum %s, unsigned), sizeof(%s_e0), __builtin_types_compatible_p(__typeof__(%s_e0), int), %s_e0 - 1 < 0 };'
+                                      % (nm, tag, tag, tag, tag, tag, tag, tag, tag), [nm], meta=d))
     return prefix, rprefix, decls
 
 
